@@ -237,7 +237,20 @@ func (p *rt) RootContext() px.Context {
 }
 
 func (p *rt) Do(actor func(px.Context)) {
-	p.DoWithParent(p.RootContext(), actor)
+	p.doWithRoot(func(root px.Context) {
+		p.DoWithParent(root, actor)
+	})
+}
+
+// doWithRoot calls the given function with a new root context as the current context and restores whatever
+// was current before (or nothing) when the function returns or panics.
+func (p *rt) doWithRoot(f func(root px.Context)) {
+	InitializeRuntime()
+	root := WithParent(context.Background(), p.EnvironmentLoader(), p.logger, topImplRegistry)
+	px.DoWithContext(root, func(root px.Context) {
+		px.ResolveResolvables(root)
+		f(root)
+	})
 }
 
 func (p *rt) DoWithParent(parentCtx context.Context, actor func(px.Context)) {
@@ -255,7 +268,10 @@ func (p *rt) DoWithParent(parentCtx context.Context, actor func(px.Context)) {
 }
 
 func (p *rt) Try(actor func(px.Context) error) (err error) {
-	return p.TryWithParent(p.RootContext(), actor)
+	p.doWithRoot(func(root px.Context) {
+		err = p.TryWithParent(root, actor)
+	})
+	return
 }
 
 func (p *rt) TryWithParent(parentCtx context.Context, actor func(px.Context) error) (err error) {
